@@ -6,10 +6,12 @@ cd /repo || exit 2
 if ! git diff --quiet; then echo "repo dirty"; exit 2; fi
 git apply "$patch" || { echo "patch does not apply"; exit 2; }
 trap 'git -C /repo checkout -- . ' EXIT
-cp /verif/known_findings.json /var/tmp/mutrun/; cd /verif/harness && cargo build 2>&1 | grep -E "^error" -A 8
+mkdir -p /var/tmp/mutrun; cp /verif/known_findings.json /verif/properties.jsonl /var/tmp/mutrun/
+cd /verif/harness && cargo build 2>&1 | grep -E "^error" -A 8
 for c in "$@"; do
-  out=$(VERIF_DIR=/var/tmp/mutrun timeout 1200 ./target/debug/verif $c --tier $tier 2>&1)
+  case "$c" in C05|C13|C14) cargo build --offline --manifest-path /repo/watchtower-plugin/Cargo.toml --features verif --bin watchtower-client --target-dir /verif/harness/target/repo-bins 2>&1 | grep -E "^error" -A 8;; esac
+  out=$(VERIF_CLIENT_BIN=/verif/harness/target/repo-bins/debug/watchtower-client VERIF_DIR=/var/tmp/mutrun timeout 1200 ./target/debug/verif $c --tier $tier 2>&1)
   code=$?
   echo "== $c exit=$code"
-  echo "$out" | grep -E "VIOLATION|signature|KNOWN|OK property" | cut -c1-220 | head -8
+  echo "$out" | grep -E "VIOLATION|signature|OK property|MACHINERY" | cut -c1-220 | head -8
 done
